@@ -336,6 +336,13 @@ func c13History(ctx *core.Ctx) {
 				if mine {
 					ctx.Trans(1)
 					ctx.State(snap)
+					if depth == 3 && ctx.WantSample() && out == cold[i] {
+						var hn []string
+						for _, h := range nd.hist {
+							hn = append(hn, alphabet[h].name)
+						}
+						ctx.Sample(map[string]any{"kind": "history", "earlier_calls": hn, "call": alphabet[i].name, "cache_state_bytes": len(snap), "equals_cold_output": true})
+					}
 					if out != cold[i] {
 						hist := append(append([]int{}, nd.hist...), i)
 						var names []string
@@ -446,6 +453,9 @@ func c13Interleave(ctx *core.Ctx, names []string, bound int, replay []int, share
 			ctx.Flag("c13:scheduling-points")
 		}
 		ctx.State(fmt.Sprintf("%v/%d", names, npre))
+		if ok && npre == 1 && ctx.WantSample() {
+			ctx.Sample(map[string]any{"kind": "interleaving", "calls": names, "schedule": cs.Choices, "scheduling_points": res.Points, "preemptions": npre})
+		}
 		return ok
 	}
 	if replay != nil {
